@@ -10,6 +10,7 @@
   and the parser in several pieces, cut wherever the 1024-byte boundary happens to fall.
 -/
 import Ptk.Model.C03Utf8
+import Ptk.Gen.C03Codecs
 namespace Ptk.C03.Utf8
 open Ptk.Py
 
@@ -31,13 +32,49 @@ def Fd.closeRead (fd : Fd) : Fd := { fd with bad := true }
 /-- `select.select([fd], [], [], 0)[0]` is non-empty: data available, or EOF -/
 def Fd.readable (fd : Fd) : Bool := !fd.avail.isEmpty || fd.eof
 
-/-- `PosixStdinReader`: the incremental decoder's pending bytes and the `closed` attribute -/
+/-! ### the ENCODING of the input
+
+  `PosixStdinReader.__init__(stdin_fd, errors="surrogateescape", encoding="utf-8")` picks its
+  incremental decoder with `getincrementaldecoder(encoding)`; `Vt100Input.__init__` passes
+  `encoding=stdin.encoding`.  Modelled: UTF-8 (`Model/C03Utf8`) and the single-byte code pages
+  (charmap / latin-1 / ascii decoders: stateless, one character per byte, an undecodable byte `b`
+  becomes the lone surrogate `0xDC00 + b`), given by a table regenerated from the interpreter. -/
+
+inductive Codec where
+  | utf8
+  /-- byte → code point, `none` = undecodable -/
+  | single (tbl : List (Option Nat))
+deriving DecidableEq, Repr
+
+/-- one byte through a single-byte code page with `errors="surrogateescape"` -/
+def sbChar (tbl : List (Option Nat)) (b : Nat) : Nat :=
+  match tbl[b]? with
+  | some (some cp) => cp
+  | _ => esc b
+
+/-- `self._stdin_decoder.decode(data)` with `buf` pending → (text, pending) -/
+def Codec.decode : Codec → Bytes → Bytes → List Nat × Bytes
+  | .utf8, buf, chunk => Utf8.decode buf chunk
+  | .single tbl, buf, chunk => ((buf ++ chunk).map (sbChar tbl), [])
+
+/-- `codecs.getincrementaldecoder(encoding)` for the encodings modelled (`none` = LookupError or
+    not modelled) -/
+def codecOf (enc : String) : Option Codec :=
+  if enc == "utf-8" || enc == "utf8" || enc == "UTF-8" then some .utf8
+  else (Gen.C03.codecs.find? (·.1 == enc)).map (fun kv => .single kv.2)
+
+/-- `PosixStdinReader`: which decoder, the decoder's pending bytes, the `closed` attribute -/
 structure Reader where
+  codec : Codec := .utf8
   dec : Bytes
   closed : Bool
 deriving DecidableEq, Repr
 
-def Reader.init : Reader := { dec := [], closed := false }
+/-- `PosixStdinReader(fd, encoding=…)`: a fresh decoder of that encoding, `closed = False` -/
+def Reader.new (c : Codec) : Reader := { codec := c, dec := [], closed := false }
+
+/-- `PosixStdinReader(fd)`: the default encoding -/
+def Reader.init : Reader := Reader.new .utf8
 
 /-- `PosixStdinReader.read(count)` → (text as code points, reader, descriptor):
 
@@ -54,15 +91,15 @@ def Reader.read (count : Nat) (r : Reader) (fd : Fd) : List Nat × Reader × Fd 
   if r.closed then ([], r, fd)
   else if fd.bad then
     -- select raises: closed = True;  os.read raises: data = b"";  decode(b"")
-    let (t, buf) := decode r.dec []
-    (t, { dec := buf, closed := true }, fd)
+    let (t, buf) := r.codec.decode r.dec []
+    (t, { r with dec := buf, closed := true }, fd)
   else if !fd.readable then ([], r, fd)
   else
     let data := fd.avail.take count
     let fd' := { fd with avail := fd.avail.drop count }
     if data.isEmpty then ([], { r with closed := true }, fd')
     else
-      let (t, buf) := decode r.dec data
+      let (t, buf) := r.codec.decode r.dec data
       (t, { r with dec := buf }, fd')
 
 /-- `Vt100Input`: stdin reader + parser (the callback buffer is `p.out`) -/
@@ -71,7 +108,20 @@ structure Inp where
   p : St
 deriving Repr
 
-def Inp.init : Inp := { rd := Reader.init, p := St.init }
+/-- `Vt100Input.__init__(stdin)`: `self._buffer = []`,
+    `self.stdin_reader = PosixStdinReader(self._fileno, encoding=stdin.encoding)`,
+    `self.vt100_parser = Vt100Parser(…)` — for a stdin whose encoding resolves to codec `c` -/
+def Inp.new (c : Codec) : Inp := { rd := Reader.new c, p := St.init }
+
+/-- … from the name in `stdin.encoding` (`none` = the constructor raises LookupError) -/
+def Inp.ofEncoding (enc : String) : Option Inp := (codecOf enc).map Inp.new
+
+def Inp.init : Inp := Inp.new .utf8
+
+/-- decode + feed for an arbitrary codec (`Utf8.readKeys` is the `.utf8` instance) -/
+def readKeysC (cfg : Cfg) (c : Codec) (st : InSt) (chunk : Bytes) : InSt :=
+  let (cps, buf) := c.decode st.dec chunk
+  { dec := buf, p := feed cfg st.p (cps.map Char.ofNat) }
 
 /-- `Vt100Input.read_keys()`: `data = self.stdin_reader.read(); self.vt100_parser.feed(data)` -/
 def Inp.readKeys (cfg : Cfg) (count : Nat) (st : Inp) (fd : Fd) : Inp × Fd :=
